@@ -169,7 +169,7 @@ def _gen_cr(rng, tier):
 
 
 def _gen_o1(rng, n):
-    """start / probe / start-completion interleavings on one worker (runner objects; finding F15a)"""
+    """start / probe / start-completion interleavings on one worker (runner objects; fixed finding F15a)"""
     out = []
     for _ in range(n):
         pending, ops = set(), []
@@ -626,34 +626,6 @@ def oracle(case, impl):
         return fn(f, impl) if fn else None
     except (ValueError, IndexError, KeyError) as e:
         return f"oracle could not parse case/output ({e}): {impl[:120]}"
-
-
-def finding_of(case, impl, why):
-    """F15a: the completion closure of worker.startContainer re-inserts a runner that a probe has already
-    closed; the next probe closes its channel again and the process panics. Only this exact shape."""
-    op = case.split(" ", 1)[0]
-    if op == "o1" and impl == "panic close of closed channel":
-        # the interleaving must contain: start of u, u adopted by a probe, u reported gone by a later probe, then
-        # the completion of that start, then another probe
-        ops = case.split(" ", 1)[1].split(",")
-        for u in ("7", "8"):
-            stage = 0
-            for o in ops:
-                listed = o.startswith("pa") and u in o[2:].split("/")
-                if stage == 0 and o == "st" + u:
-                    stage = 1
-                elif stage == 1 and listed:
-                    stage = 2
-                elif stage == 2 and o.startswith("pa") and not listed:
-                    stage = 3
-                elif stage == 3 and o == "sd" + u:
-                    stage = 4
-                elif stage == 4 and o.startswith("pa"):
-                    return "F15a"
-        return None
-    if op == "e2e" and impl == "e2e crash=closeRunner-double-close":
-        return "F15a"
-    return None
 
 
 def nontrivial_key(case, impl):
